@@ -39,6 +39,7 @@ def apply(ctx, W):
 
     # ---- convert_grammar_functions_to_semantic_functions
     fn, u = fn_into_verus(ctx, fw, "convert_grammar_functions_to_semantic_functions", ret="res", tags=U,
+        requires=["reg_wf(type_registry)"],
         ensures=[
             ("res is Ok ==> slots_total(functions@, size) == Some(res->Ok_0@.len() as nat)", L),
             ("res is Ok ==> slots_ok(type_registry, module_scope(module), functions@, functions@.len() as int, res->Ok_0@.take(slot_end(functions@, functions@.len() as int)->0 as int))", L),
@@ -48,6 +49,7 @@ def apply(ctx, W):
     l2 = fw.loop(fn, 2)
     rules.for_to_index_loop(ctx, fw, u, l1, seq="functions", ivar="i_f")
     rules.index_loop_spec(ctx, fw, u, l1, tags=L, invariants=[
+        "reg_wf(type_registry)",
         "slots_ok(type_registry, module_scope(module), functions@, i_f as int, output@)",
     ])
     rules.for_to_index_loop(ctx, fw, u, l2, seq="function.attributes.0", ivar="i_a")
@@ -59,6 +61,3 @@ def apply(ctx, W):
     rules.slice1_all(fw, fn)
     ghost(ctx, fw, u, body_start(l2), 'proof { reveal_strlit("index"); }')
     # trusted callees
-    m = W.file("semantic/module.rs")
-    fn_into_verus(ctx, m, "Module::scope", mode="T", ret="r", tags=("C11", "C04", "C05"),
-                  ensures=["r@ == module_scope(self)"])
